@@ -22,6 +22,7 @@ import SkNet.Lemmas.BreakInv
 import SkNet.Lemmas.BreakAcyclic
 import SkNet.Lemmas.BreakDirGlobal
 import SkNet.Lemmas.BreakFuel
+import SkNet.Lemmas.BreakDist
 
 namespace SkNet.C12
 open SkNet SkNet.Connectivity SkNet.Cycles
@@ -793,13 +794,6 @@ theorem breakCycles_undirected (fuel : Nat) (ext : BreakExt) (m : Mat) (root : O
                   exact hg0.symm y x (by simpa using this)
               exact no_cycle_of_startDone (hdone _ hstart) hC h3 List.mem_cons_self (hg.conn _ _ hreach0)
 
-/-- what `get_distances(adjacency, source=root)` returned are hop distances from the roots — the statement of
-    property C10 (`-1` exactly for the nodes no root reaches, `0` only at roots, a predecessor one step closer) -/
-structure IsHopDist (a0 : Rows) (n : Nat) (root : List Nat) (d : List Int) : Prop where
-  reach : ∀ v, v < n → (0 ≤ d.getD v (-1) ↔ ∃ r ∈ root, Reach a0.row r v)
-  zero : ∀ v, v < n → d.getD v (-1) = 0 → v ∈ root
-  pred : ∀ v, v < n → 0 < d.getD v (-1) → ∃ x, v ∈ a0.row x ∧ d.getD x (-1) = d.getD v (-1) - 1
-
 theorem checkRoot_ok {m : Mat} {root : List Nat} (h : checkRoot m root = .ok ()) : ∀ r ∈ root, r < m.nRow := by
   unfold checkRoot at h
   split at h
@@ -936,6 +930,40 @@ example : IsHopDist (noLoopRows threeCycle) 3 [0] [0, 1, 2] := by
     | 1, _, _ => exact ⟨0, e01, by decide⟩
     | 2, _, _ => exact ⟨1, e12, by decide⟩
 
+/-- ★ `breakCycles_directed` with the distances discharged by property C10 (`getDistances_plain_exact`: the model of
+    `get_distances` returns exact hop distances for in-range sources): only scipy's contract and the set order remain
+    as hypotheses. -/
+theorem breakCycles_directed_c10 (fuel : Nat) (ext : BreakExt) (m : Mat) (rootl : List Nat)
+    (directed : Option Bool) (a : Rows)
+    (hc : m.Canon) (hsq : m.nRow = m.nCol)
+    (hd : resolveDirected m directed = .ok true)
+    (hlab : IsLabelling m.nRow (noLoopRows m).row true (ext.labelsNoLoop true))
+    (hset1 : ∀ l x, x ∈ ext.setOrder l → x ∈ l) (hset2 : ∀ l x, x ∈ l → x ∈ ext.setOrder l)
+    (h : breakCyclesWith fuel ext m (some rootl) directed = .ok (.rows a)) :
+    ¬ HasCycle m.nRow a.row ∧
+    ∀ v, (∃ r ∈ rootl, Reach m.adj r v) → ∃ r ∈ rootl, Reach a.row r v := by
+  have hwf := Canon.wf hc hsq
+  have hwf0 : ∀ u v, v ∈ (noLoopRows m).row u → v < m.nRow := by
+    intro u v hv
+    obtain ⟨hu, hmem, _⟩ := (mem_noLoopRows m u v).mp hv
+    exact hwf u hu v hmem
+  -- the roots passed the out-degree test: they are nodes
+  have hroot : ∀ r ∈ rootl, r < m.nRow := by
+    unfold breakCyclesWith at h
+    split at h
+    · cases h
+    · cases h
+    · simp only at h
+      split at h
+      · cases h
+      · rename_i hr; exact checkRoot_ok hr
+  obtain ⟨d0, hd0, hD⟩ := distancesFrom_isHopDist m hwf0 rootl hroot
+  refine breakCycles_directed fuel ext m rootl directed a hc hsq hd hlab hset1 hset2 ?_ h
+  intro d hdd
+  rw [hd0] at hdd
+  cases hdd
+  exact hD
+
 theorem noLoopRows_bounds (m : Mat) (hwf : WF m.nRow m.adj) :
     (∀ u v, v ∈ (noLoopRows m).row u → v < m.nRow) ∧
     ∀ u, ((noLoopRows m).row u).length ≤ maxOf ((List.range m.nRow).map fun i => (m.adj i).length) + m.nRow := by
@@ -951,13 +979,12 @@ theorem noLoopRows_bounds (m : Mat) (hwf : WF m.nRow m.adj) :
     · simp
 
 /-- `breakCycles_terminates`: the fuel `breakFuel m` that `breakCycles` hands to its traversals always suffices
-    (provided the loop of `get_distances` itself ends, property C10, and the set order does not invent or repeat
-    members): `break_cycles` never answers "out of fuel". -/
+    (the loop of `get_distances` itself ends by property C10, `SkNet.C10.getDistances_plain_exact`; the set order must
+    not invent or repeat members): `break_cycles` never answers "out of fuel". -/
 theorem breakCycles_terminates (ext : BreakExt) (m : Mat) (root : Option (List Nat)) (directed : Option Bool)
     (hc : m.Canon) (hsq : m.nRow = m.nCol)
     (hset1 : ∀ l x, x ∈ ext.setOrder l → x ∈ l) (hset3 : ∀ l, (ext.setOrder l).length ≤ l.length)
-    (hlen : ∀ d, (ext.labelsNoLoop d).length = m.nRow)
-    (hdist : ∀ rootl, distancesFrom m (noLoopRows m) rootl ≠ .ok none) :
+    (hlen : ∀ d, (ext.labelsNoLoop d).length = m.nRow) :
     breakCycles ext m root directed ≠ .ok .fuel := by
   have hwf := Canon.wf hc hsq
   obtain ⟨hb1, hb2⟩ := noLoopRows_bounds m hwf
@@ -977,9 +1004,10 @@ theorem breakCycles_terminates (ext : BreakExt) (m : Mat) (root : Option (List N
         · -- directed
           unfold breakDirected
           simp only
+          obtain ⟨d0, hd0, _⟩ := distancesFrom_isHopDist m hb1 rootl (checkRoot_ok hroot)
           split
           · simp
-          · rename_i hnone; exact absurd hnone (hdist rootl)
+          · rename_i hnone; rw [hd0] at hnone; cases hnone
           · rename_i d _
             have := breakLabels_terminates (n := m.nRow) ext.setOrder hset1 hset3 (ext.labelsNoLoop true) (hlen true) d
               (maxOf ((List.range m.nRow).map fun i => (m.adj i).length) + m.nRow) (Nat.le_add_left _ _)
